@@ -59,16 +59,9 @@ func (h *hijackRecorder) Hijack() (net.Conn, *bufio.ReadWriter, error) {
 // serverRejects mirrors the checks of net/http's conn.readRequest that happen after ReadRequest
 // and before the handler is called: such requests never reach a handler.
 func serverRejects(req *http.Request) bool {
-	if req.ProtoMajor < 1 || (req.ProtoMajor == 1 && req.ProtoMinor > 1 && false) {
+	if req.ProtoMajor != 1 { // HTTP/0.9 and the HTTP/2 preface are not served by the HTTP/1 handler path
 		return true
 	}
-	if req.ProtoMajor != 1 { // HTTP/2 preface etc. is not served by the HTTP/1 path
-		return true
-	}
-	hosts, haveHost := req.Header["Host"]
-	_ = hosts
-	// ReadRequest moves Host into req.Host and deletes the header; the raw presence is checked by the caller
-	_ = haveHost
 	for k, vv := range req.Header {
 		if !httpguts.ValidHeaderFieldName(k) {
 			return true
@@ -79,10 +72,8 @@ func serverRejects(req *http.Request) bool {
 			}
 		}
 	}
-	if req.Host != "" && !httpguts.ValidHostHeader(req.Host) {
-		return true
-	}
-	return false
+	// ReadRequest moves the Host header into req.Host; its presence/uniqueness is checked on the raw text
+	return req.Host != "" && !httpguts.ValidHostHeader(req.Host)
 }
 
 func kv(k string, v any) string { return fmt.Sprintf("%s=%v", k, v) }
@@ -136,11 +127,8 @@ func (w *worker) runHTTP(f []string) string {
 	if serverRejects(req) {
 		return "res=reject why=headers"
 	}
-	if req.Method == "PRI" || (req.RequestURI == "*" && req.Method != "OPTIONS") {
-		// net/http answers "*" requests itself unless OPTIONS (which it also answers itself)
-		return "res=reject why=star"
-	}
-	if req.RequestURI == "*" {
+	if req.Method == "PRI" || req.RequestURI == "*" {
+		// the HTTP/2 preface and "*" requests are answered by net/http itself
 		return "res=reject why=star"
 	}
 	req.RemoteAddr = "127.0.0.1:1"
